@@ -54,6 +54,7 @@ Record family := mkFam {
   f_fant_uses : list use;             (* caches of the SOURCE model filled by get_fantasy_model *)
   f_fant_req : option nat;            (* slot that must be present for get_fantasy_model *)
   f_fant_ok : bool;                   (* fantasy models are implemented for this family *)
+  f_fant_copy : list nat;             (* module-level caches that get_fantasy_model deep-copies with the model *)
   f_parent : nat -> option nat;       (* memo entries are computed from the object that owns them *)
   f_ddep : nat -> bool;               (* slot content depends on the training data *)
   f_strat_slots : list nat;           (* dropped with the prediction strategy *)
@@ -193,7 +194,11 @@ Definition step (pts : points) (fam : family) (s : state) (o : op) : state * (na
       let present := match f_fant_req fam with
                      | Some sl => match lookup_slot sl (cch s) with Some _ => true | None => false end
                      | None => true end in
-      if present && f_fant_ok fam then
+      (* deepcopy(self) raises on a cached tensor that hangs on an autograd graph (a kernel cache
+         filled by a call made with gradients enabled) *)
+      let copyable := negb (existsb (fun e => in_slots (f_fant_copy fam) e &&
+                                      match e_g e with GNone => false | _ => true end) (cch s)) in
+      if present && f_fant_ok fam && copyable then
         let '(c2, es) := consult_all pts fam s GNone (cch s) (f_fant_uses fam) in
         (set_cache s c2, (ST_OK, map obs es))
       else (s, (ST_ERR, []))
@@ -281,7 +286,7 @@ Definition fam_exact : family := {|
                      | _ => [U STRAT 0; U MEAN 0]
                      end;
   f_train_uses := []; f_prior_uses := [];
-  f_fant_uses := [U MEAN 0]; f_fant_req := Some STRAT; f_fant_ok := true;
+  f_fant_uses := [U MEAN 0]; f_fant_req := Some STRAT; f_fant_ok := true; f_fant_copy := [];
   f_parent := fun sl => if (sl =? MEAN) || (sl =? COVAR) then Some STRAT else None;
   f_ddep := fun sl => (sl =? STRAT) || (sl =? MEAN) || (sl =? COVAR);
   f_strat_slots := [STRAT; MEAN; COVAR]; f_hook_slots := [MEAN; COVAR];
@@ -298,7 +303,7 @@ Definition fam_kiss : family := {|
                      | _ => [U KMAT 0; U STRAT 0; U MEAN 0]
                      end;
   f_train_uses := []; f_prior_uses := [U KMAT 0];
-  f_fant_uses := [U KMAT 0; U WISKI 0]; f_fant_req := Some STRAT; f_fant_ok := true;
+  f_fant_uses := [U KMAT 0; U WISKI 0]; f_fant_req := Some STRAT; f_fant_ok := true; f_fant_copy := [KMAT];
   f_parent := fun sl => if (sl =? MEAN) || (sl =? COVAR) || (sl =? WISKI) then Some STRAT else None;
   f_ddep := fun sl => (sl =? STRAT) || (sl =? MEAN) || (sl =? COVAR) || (sl =? WISKI);
   f_strat_slots := [STRAT; MEAN; COVAR; WISKI]; f_hook_slots := [MEAN; COVAR; WISKI];
@@ -316,7 +321,7 @@ Definition fam_sgpr : family := {|
                      | _ => [U KMAT 0; U STRAT 0; U MEAN 0; U COVAR 0]
                      end;
   f_train_uses := []; f_prior_uses := [U KMAT 0];
-  f_fant_uses := []; f_fant_req := Some STRAT; f_fant_ok := false;
+  f_fant_uses := []; f_fant_req := Some STRAT; f_fant_ok := false; f_fant_copy := [];
   f_parent := fun sl => if (sl =? MEAN) || (sl =? COVAR) then Some STRAT else None;
   f_ddep := fun sl => (sl =? STRAT) || (sl =? MEAN) || (sl =? COVAR);
   f_strat_slots := [STRAT; MEAN; COVAR]; f_hook_slots := [MEAN; COVAR];
@@ -333,7 +338,7 @@ Definition fam_var (fant : bool) : family := {|
                      | _ => [U VDIST 0; U CHOL 0]
                      end;
   f_train_uses := [U VDIST 0; U CHOL 0]; f_prior_uses := [];
-  f_fant_uses := [U VDIST 0; U PSEUDO 0]; f_fant_req := None; f_fant_ok := fant;
+  f_fant_uses := [U VDIST 0; U PSEUDO 0]; f_fant_req := None; f_fant_ok := fant; f_fant_copy := [];
   f_parent := fun _ => None;
   f_ddep := fun _ => false;
   f_strat_slots := []; f_hook_slots := [];
